@@ -1,6 +1,6 @@
 import HappyModel.Proto
 import HappyModel.C18.Spec
-import HappyModel.C18.StoreSpec
+import HappyModel.C18.StoreTrace
 import HappyModel.C18.KClock
 /-! Line-protocol driver for C18 (see `hv/props/c18.py` for the other side). -/
 namespace HappyModel.C18.Driver
@@ -92,11 +92,9 @@ def parseOp (ts : List String) : Option COp :=
 def COp.target : COp → Nat
   | .inc r _ | .dec r _ | .lset r _ _ _ _ | .oadd r _ | .orem r _ | .merge r _ => r
 
-def sortNat (l : List Nat) : List Nat := l.mergeSort (· ≤ ·)
 
 def tagKey (t : Tag) : Nat := t.node * 1000000 + t.seq
 
-def elemsOf (s : ORSet) : List Nat := (sortNat (s.ents.map (·.1))).eraseDups
 
 def lwwOut (r : LWW) : String :=
   match r.cur with
